@@ -6,90 +6,132 @@ import (
 	"os"
 	"os/exec"
 	"path/filepath"
+	"regexp"
 	"sort"
 	"strings"
+	"sync"
 )
 
-// SeedMeta is /verif/seeded/<name>/meta.json.
+// SeedMeta is <set>/<name>/meta.json of a seeded change (seeded/, variants/)
+// or of a behaviour-preserving refactoring (neutral/).
 type SeedMeta struct {
 	Property   string   `json:"property"`
 	Summary    string   `json:"summary"`
 	Needs      string   `json:"needs"`
 	DetectedBy []string `json:"detected_by"` // property ids whose checks must fire
 	Rules      []string `json:"rules"`       // rule ids expected among the failures
+	Silent     []string `json:"must_stay_silent"`
 }
 
-// Sensitivity applies every seeded variant registered for property id to a
-// scratch copy of the current tree and records whether the rule set fires.
-// It never influences the verdict on the tree itself (DESIGN 2.6).
-func Sensitivity(repoDir, verifDir, id string) any {
-	type result struct {
-		Variant string   `json:"variant"`
-		Status  string   `json:"status"` // fired | MISSED | skipped
-		Rules   []string `json:"rules,omitempty"`
-		Detail  string   `json:"detail,omitempty"`
+// SensResult is the outcome of one variant in the sweep.
+type SensResult struct {
+	Set     string   `json:"set"`
+	Variant string   `json:"variant"`
+	Status  string   `json:"status"` // fired | MISSED | silent | FALSE-ALARM | skipped
+	Rules   []string `json:"rules,omitempty"`
+	Detail  string   `json:"detail,omitempty"`
+}
+
+var reRuleLine = regexp.MustCompile(`(?m)^  (C[0-9]+[A-Za-z0-9.\-]*) \[`)
+
+// Sensitivity applies, each to its own scratch copy of the current tree, (a)
+// every seeded property-breaking change and hand-written variant registered
+// for property id and records whether the rule set fires, and (b) every
+// behaviour-preserving refactoring and records whether it stays silent. The
+// scratch copies are analysed by child processes of this same binary, in
+// parallel. The sweep measures the checker; it never influences the verdict on
+// the tree itself (DESIGN 2.6).
+func Sensitivity(repoDir, verifDir, id string) []SensResult {
+	type job struct {
+		set, name, patch string
+		neutral          bool
 	}
-	var out []result
-	dirs, _ := filepath.Glob(filepath.Join(verifDir, "seeded", "*", "meta.json"))
-	sort.Strings(dirs)
-	for _, mf := range dirs {
-		var m SeedMeta
-		b, err := os.ReadFile(mf)
-		if err != nil || json.Unmarshal(b, &m) != nil {
-			continue
-		}
-		want := false
-		for _, d := range m.DetectedBy {
-			if d == id {
-				want = true
+	var jobs []job
+	for _, set := range []string{"seeded", "variants", "neutral"} {
+		metas, _ := filepath.Glob(filepath.Join(verifDir, set, "*", "meta.json"))
+		sort.Strings(metas)
+		for _, mf := range metas {
+			var m SeedMeta
+			b, err := os.ReadFile(mf)
+			if err != nil || json.Unmarshal(b, &m) != nil {
+				continue
 			}
+			want := set == "neutral"
+			for _, d := range m.DetectedBy {
+				if d == id {
+					want = true
+				}
+			}
+			if !want {
+				continue
+			}
+			jobs = append(jobs, job{set, filepath.Base(filepath.Dir(mf)), filepath.Join(filepath.Dir(mf), "patch.diff"), set == "neutral"})
 		}
-		if !want {
-			continue
-		}
-		name := filepath.Base(filepath.Dir(mf))
-		patch := filepath.Join(filepath.Dir(mf), "patch.diff")
-		res := result{Variant: name}
-		tmp, err := os.MkdirTemp("", "echverif-sens-")
-		if err != nil {
-			res.Status, res.Detail = "skipped", err.Error()
-			out = append(out, res)
-			continue
-		}
-		func() {
+	}
+	self, err := os.Executable()
+	if err != nil {
+		return []SensResult{{Status: "skipped", Detail: err.Error()}}
+	}
+	out := make([]SensResult, len(jobs))
+	sem := make(chan struct{}, 8)
+	var wg sync.WaitGroup
+	for i, j := range jobs {
+		wg.Add(1)
+		go func() {
+			defer wg.Done()
+			sem <- struct{}{}
+			defer func() { <-sem }()
+			res := SensResult{Set: j.set, Variant: j.name}
+			defer func() { out[i] = res }()
+			tmp, err := os.MkdirTemp("", "echverif-sens-")
+			if err != nil {
+				res.Status, res.Detail = "skipped", err.Error()
+				return
+			}
 			defer os.RemoveAll(tmp)
-			cp := exec.Command("rsync", "-a", "--exclude", ".git", repoDir+"/", tmp+"/")
-			if o, err := cp.CombinedOutput(); err != nil {
+			if o, err := exec.Command("rsync", "-a", "--exclude", ".git", repoDir+"/", tmp+"/").CombinedOutput(); err != nil {
 				res.Status, res.Detail = "skipped", fmt.Sprintf("copy: %v %s", err, o)
 				return
 			}
-			ap := exec.Command("git", "apply", "--whitespace=nowarn", patch)
+			ap := exec.Command("git", "apply", "--whitespace=nowarn", j.patch)
 			ap.Dir = tmp
 			if o, err := ap.CombinedOutput(); err != nil {
 				res.Status, res.Detail = "skipped", "patch no longer applies: "+strings.TrimSpace(string(o))
 				return
 			}
-			run, err := RunOn(tmp, "quick", id)
-			if err != nil {
-				res.Status, res.Detail = "skipped", err.Error()
-				return
-			}
-			run.Finalise()
+			vd := filepath.Join(tmp, ".verif")
+			os.MkdirAll(filepath.Join(vd, "evidence"), 0o755)
+			cmd := exec.Command(self, "-repo", tmp, "-verif", vd, "quick", id)
+			o, _ := cmd.CombinedOutput()
 			rules := map[string]bool{}
-			for _, o := range run.Failed() {
-				rules[o.Rule] = true
+			for _, m := range reRuleLine.FindAllStringSubmatch(string(o), -1) {
+				rules[m[1]] = true
+			}
+			if !strings.Contains(string(o), id+" quick:") {
+				res.Status, res.Detail = "skipped", "child run failed: "+lastLine(string(o))
+				return
 			}
 			for r := range rules {
 				res.Rules = append(res.Rules, r)
 			}
 			sort.Strings(res.Rules)
-			if len(res.Rules) > 0 {
+			switch {
+			case j.neutral && len(res.Rules) == 0:
+				res.Status = "silent"
+			case j.neutral:
+				res.Status = "FALSE-ALARM"
+			case len(res.Rules) > 0:
 				res.Status = "fired"
-			} else {
+			default:
 				res.Status = "MISSED"
 			}
 		}()
-		out = append(out, res)
 	}
+	wg.Wait()
 	return out
+}
+
+func lastLine(s string) string {
+	l := strings.Split(strings.TrimSpace(s), "\n")
+	return l[len(l)-1]
 }
